@@ -20,14 +20,6 @@ Record provider := { p_id : N; p_events : list (N * json) }.
 
 Definition p_auths (p : provider) : list json := map snd (p_events p).
 
-Fixpoint find_last (k : bytes * bytes) (l : list (N * json)) (acc : option (N * json)) : option (N * json) :=
-  match l with
-  | [] => acc
-  | x :: l' => find_last k l' (if tuple_eqb k (ev_key (snd x)) then Some x else acc)
-  end.
-(* AuthEvents.Create / PowerLevels / JoinRules: the event object stored under the key *)
-Definition p_find (p : provider) (k : bytes * bytes) : option (N * json) := find_last k (p_events p) None.
-
 Definition key_create : bytes * bytes := (m_room_create, []).
 Definition key_power_levels : bytes * bytes := (m_room_power_levels, []).
 Definition key_join_rules : bytes * bytes := (m_room_join_rules, []).
@@ -40,6 +32,19 @@ Definition tok_eqb (a b : option (N * json)) : bool :=
   end.
 
 Section Checker.
+  (* how the provider files an event under a (type, state_key) pair, and the sender of an event *)
+  Variable matches : bytes * bytes -> json -> bool.
+  Variable sender_of : json -> bytes.
+
+  Fixpoint find_last (k : bytes * bytes) (l : list (N * json)) (acc : option (N * json)) : option (N * json) :=
+    match l with
+    | [] => acc
+    | x :: l' => find_last k l' (if matches k (snd x) then Some x else acc)
+    end.
+  (* AuthEvents.Create / PowerLevels / JoinRules: the event object stored under the key (the last
+     one added) *)
+  Definition p_find (p : provider) (k : bytes * bytes) : option (N * json) := find_last k (p_events p) None.
+
   (* parsed contents and verdicts of the auth model in use *)
   Variables CC PC JC V : Type.
   (* NewCreateContentFromAuthEvents on the create slot; None = error (no event, bad content) *)
@@ -118,7 +123,7 @@ Section Checker.
       if stale (c_pl_ev c) e then
         let ev0 := if clears then None else c_pl_ev c in
         let pc0 := if clears then None else c_pl c in
-        let creator := match c_create_ev c with Some (_, ce) => ev_sender ce | None => [] end in
+        let creator := match c_create_ev c with Some (_, ce) => sender_of ce | None => [] end in
         match load_pl (option_map snd e) creator with
         | Some pc => {| c_prov := c_prov c; c_create_ev := c_create_ev c; c_create := c_create c;
                         c_pl_ev := e; c_pl := Some pc; c_jr_ev := c_jr_ev c; c_jr := c_jr c |}
@@ -188,12 +193,12 @@ Arguments c_jr_ev {CC PC JC} c.
 Arguments c_jr {CC PC JC} c.
 Arguments view_of {CC PC JC} c.
 Arguments upd_provider {CC PC JC} c p.
-Arguments upd_create {CC PC JC} load_create clears c p.
-Arguments upd_pl {CC PC JC} load_pl clears c p.
-Arguments upd_jr {CC PC JC} load_jr clears c p.
-Arguments update {CC PC JC} load_create load_pl load_jr clears c p.
-Arguments step {CC PC JC V} load_create load_pl load_jr decide clears leak c pe.
-Arguments run_from {CC PC JC V} load_create load_pl load_jr decide clears leak c steps.
-Arguments run_checker {CC PC JC V} load_create load_pl load_jr decide c steps.
-Arguments new_context {CC PC JC} load_create load_pl load_jr p.
-Arguments one_shot {CC PC JC V} load_create load_pl load_jr decide pe.
+Arguments upd_create matches {CC PC JC} load_create clears c p.
+Arguments upd_pl matches sender_of {CC PC JC} load_pl clears c p.
+Arguments upd_jr matches {CC PC JC} load_jr clears c p.
+Arguments update matches sender_of {CC PC JC} load_create load_pl load_jr clears c p.
+Arguments step matches sender_of {CC PC JC V} load_create load_pl load_jr decide clears leak c pe.
+Arguments run_from matches sender_of {CC PC JC V} load_create load_pl load_jr decide clears leak c steps.
+Arguments run_checker matches sender_of {CC PC JC V} load_create load_pl load_jr decide c steps.
+Arguments new_context matches sender_of {CC PC JC} load_create load_pl load_jr p.
+Arguments one_shot matches sender_of {CC PC JC V} load_create load_pl load_jr decide pe.
